@@ -59,7 +59,70 @@ def handle_check(prop, tier, seed):
     return H.report(prop, results, tier, seed, t0, assumptions=ASSUME_HANDLES, mc=mcinfo)
 
 
+ASSUME_CURSORS = [
+    "TLC and the CommunityModules JSON reader are correct",
+    "the cursor harness (vh-buf) reports results and the state of every node faithfully; leaf state is read through the leaf's own public API",
+    "host is little-endian (native-endian methods are judged as little-endian; constant NativeLE)",
+    "exhaustive statements hold for the generator's bounds (tree depth, leaf lengths, operations per program); beyond them behaviours are seeded samples",
+]
+
+BUF_OPS = ["remaining", "has_remaining", "chunk", "fill_buf", "advance", "consume", "copy_to_slice", "copy_to_bytes", "try_copy_to_slice",
+           "read", "chunks_vectored", "set_limit", "into_iter"]
+MUT_OPS = ["remaining_mut", "has_remaining_mut", "chunk_mut_len", "put", "put_slice", "put_bytes", "put_buf", "write", "manual", "set_limit"]
+
+
+def pick(progs, n, seed):
+    import random
+    r = random.Random(seed)
+    progs = list(progs)
+    r.shuffle(progs)
+    return progs[:n]
+
+
+def cursor_check(prop, tier, seed):
+    from . import cursors as K
+    t0 = time.time()
+    q = tier == "quick"
+    names = K.method_names()
+    getters = [m for m in names if m.startswith("get_") or m.startswith("try_get_")]
+    putters = [m for m in names if m.startswith("put_")]
+    gens, results = [], []
+
+    def gen(tag, side, depth, leaves, maxops, lens, ops, meths, ns, k, simulate=None, take=3000, leaf_types=None, **kw):
+        progs, st = K.generate("%s_%s" % (prop, tag), side, depth, leaves, maxops, lens, ops, meths, ns, k, seed, simulate=simulate,
+                               timeout=900 if q else 3000, leaf_types=leaf_types, **kw)
+        st = dict(st, tag=tag, side=side, mode="simulate" if simulate else "exhaustive", depth=depth, leaves=leaves, maxops=maxops,
+                  programs_emitted=len(progs))
+        gens.append(st)
+        if not progs:
+            raise C.ToolError("generator %s emitted no program" % tag)
+        results.append(K.run_and_validate("%s_%s" % (prop, tag), pick(progs, take if q else take * 10, seed)))
+
+    if prop == "C09":
+        gen("bfs", "buf", 1, 2, 2, [0, 3], BUF_OPS, [], [0], 60 if q else 8, take=3000)
+        gen("sim", "buf", 3, 4, 3, [0, 1, 3], BUF_OPS, [], [0], 1, simulate=(2500 if q else 40000, 30), take=2500)
+        gen("vec17", "buf", 2, 2, 2, [3, 18], ["chunks_vectored", "copy_to_bytes", "advance"], [], [0], 1, simulate=(800 if q else 8000, 30), take=800)
+        # Take over chains of several multi-byte chunks with the limit falling inside a later chunk
+        gen("takechain", "buf", 3, 3, 1, [2, 3], ["chunks_vectored", "copy_to_bytes", "advance", "remaining", "chunk"], [], [0], 4 if q else 100,
+            take=3000, leaf_types=["slice"] if q else ["slice", "deque"], wraps=(), root_limit_only=True)
+    elif prop == "C10":
+        gen("bfs", "buf", 1, 2, 1, [0, 1, 9, 17], ["get"], getters, list(range(0, 9)), 400 if q else 40, take=4000)
+        gen("sim", "buf", 3, 3, 3, [1, 3, 9], ["get", "advance"], getters, list(range(0, 9)), 1, simulate=(1500 if q else 30000, 30), take=1500)
+    elif prop == "C11":
+        gen("bfs", "mut", 1, 2, 1, [0, 1, 3, 9], MUT_OPS, putters, list(range(0, 9)), 100 if q else 10, take=4000)
+        gen("sim", "mut", 3, 3, 3, [1, 3, 9], MUT_OPS, putters, list(range(0, 9)), 1, simulate=(1500 if q else 30000, 30), take=1500)
+    elif prop == "C12":
+        gen("bufsim", "buf", 4 if not q else 3, 4, 4, [0, 2, 3], ["advance", "copy_to_slice", "copy_to_bytes", "read", "set_limit", "consume", "remaining", "get", "chunks_vectored", "chunk"],
+            ["get_u16", "get_u8", "try_get_u32_le"], [0], 1, simulate=(2500 if q else 40000, 40), take=2500)
+        gen("mutsim", "mut", 4 if not q else 3, 4, 4, [0, 2, 3], ["put_slice", "write", "set_limit", "remaining_mut", "put_bytes", "put", "put_buf", "chunk_mut_len"],
+            ["put_u16", "put_u8", "put_u32_le"], [0], 1, simulate=(2500 if q else 40000, 40), take=2500)
+        gen("bfs", "buf", 2, 2, 1 if q else 2, [2], ["advance", "read", "set_limit", "copy_to_bytes"], [], [0], 20 if q else 40, take=2500)
+    return K.report(prop, results, gens, tier, seed, t0, ASSUME_CURSORS)
+
+
 def run(prop, tier, seed):
+    if prop in ("C09", "C10", "C11", "C12"):
+        return cursor_check(prop, tier, seed)
     if prop in H.HANDLE_PROPS:
         return handle_check(prop, tier, seed)
     raise C.ToolError("no check registered for %s" % prop)
